@@ -68,7 +68,9 @@ type Explorer struct {
 	covers  map[string]bool
 	asserts int
 	symFns  map[string]bool
-	inHarnessPrologue bool
+	dom     map[int][]uint64 // refined value domain per variable id (from single-variable constraints)
+	rel     map[int]bool     // variable occurs in a constraint together with other variables
+	domDecided int
 }
 
 type knownRegion struct {
@@ -99,6 +101,7 @@ type InstanceResult struct {
 	Samples     []string       `json:"samples,omitempty"`
 	EngineError string         `json:"engine_error,omitempty"`
 	SampleVectors [][]ReplayItem `json:"sample_vectors,omitempty"`
+	Pending     [][]decision   `json:"pending,omitempty"`
 	Stubs       map[string]int `json:"stubs,omitempty"`
 }
 
@@ -113,6 +116,8 @@ func (x *Explorer) beginPath(script []decision) {
 	x.known = x.known[:0]
 	x.covers = map[string]bool{}
 	x.asserts = 0
+	x.dom = map[int][]uint64{}
+	x.rel = map[int]bool{}
 }
 
 func (x *Explorer) addPC(c *Term) {
@@ -120,6 +125,89 @@ func (x *Explorer) addPC(c *Term) {
 		return
 	}
 	x.pc = append(x.pc, c)
+	fv := c.freeVars()
+	if len(fv) == 1 {
+		v := fv[0]
+		if d, ok := x.dom[v.id]; ok {
+			nd := d[:0:0]
+			env := map[string]uint64{}
+			for _, val := range d {
+				env[v.name] = val
+				if c.eval(env, map[int]uint64{}) != 0 {
+					nd = append(nd, val)
+				}
+			}
+			x.dom[v.id] = nd
+		}
+	} else {
+		for _, v := range fv {
+			x.rel[v.id] = true
+		}
+	}
+}
+
+const domLimit = 4096
+
+// domDecide evaluates c over the refined domains of its variables.
+// res: +1 true for all, -1 false for all, 0 mixed; ok=false when not applicable.
+func (x *Explorer) domDecide(c *Term) (res int, ok bool) {
+	fv := c.freeVars()
+	if len(fv) == 0 || len(fv) > 3 || c.fp {
+		return 0, false
+	}
+	prod := 1
+	doms := make([][]uint64, len(fv))
+	for i, v := range fv {
+		d, have := x.dom[v.id]
+		if !have {
+			return 0, false
+		}
+		if len(d) == 0 {
+			return 0, false
+		}
+		doms[i] = d
+		prod *= len(d)
+		if prod > domLimit {
+			return 0, false
+		}
+	}
+	defer func() {
+		if recover() != nil {
+			res, ok = 0, false
+		}
+	}()
+	env := map[string]uint64{}
+	sawT, sawF := false, false
+	idx := make([]int, len(fv))
+	for {
+		for i, v := range fv {
+			env[v.name] = doms[i][idx[i]]
+		}
+		if c.eval(env, map[int]uint64{}) != 0 {
+			sawT = true
+		} else {
+			sawF = true
+		}
+		if sawT && sawF {
+			return 0, true
+		}
+		k := 0
+		for k < len(idx) {
+			idx[k]++
+			if idx[k] < len(doms[k]) {
+				break
+			}
+			idx[k] = 0
+			k++
+		}
+		if k == len(idx) {
+			break
+		}
+	}
+	if sawT {
+		return 1, true
+	}
+	return -1, true
 }
 
 // evalModel evaluates c under the current model; ok=false when the model is unusable.
@@ -178,6 +266,34 @@ func (x *Explorer) branch(c *Term) bool {
 	}
 	x.noteSym()
 	var side bool
+	if r, dok := x.domDecide(c); dok {
+		if r != 0 {
+			x.domDecided++
+			x.trace = append(x.trace, decision{Kind: 'b', Branch: r > 0, Forced: true})
+			return r > 0
+		}
+		fv := c.freeVars()
+		if len(fv) == 1 && !x.rel[fv[0].id] {
+			// both sides feasible, no solver needed: the variable is constrained only by its domain
+			x.domDecided++
+			side = true
+			if mv, ok := x.evalModel(c); ok {
+				side = mv
+			} else {
+				x.model = nil
+			}
+			x.inst.Forks++
+			alt := append(append([]decision(nil), x.trace...), decision{Kind: 'b', Branch: !side})
+			x.pending = append(x.pending, alt)
+			x.trace = append(x.trace, decision{Kind: 'b', Branch: side})
+			if side {
+				x.addPC(c)
+			} else {
+				x.addPC(mkNot(c))
+			}
+			return side
+		}
+	}
 	mv, ok := x.evalModel(c)
 	if ok {
 		side = mv
@@ -403,6 +519,18 @@ func (x *Explorer) newVar(kind, tag string, s Sort, vs []uint64) *Term {
 	}
 	t := mkVar(name, s, vs)
 	x.vars = append(x.vars, t)
+	switch {
+	case vs != nil && len(vs) <= maxVS:
+		x.dom[t.id] = append([]uint64(nil), t.vs...)
+	case s == SBV8:
+		d := make([]uint64, 256)
+		for i := range d {
+			d[i] = uint64(i)
+		}
+		x.dom[t.id] = d
+	case s == SBool:
+		x.dom[t.id] = []uint64{0, 1}
+	}
 	if kind != "internal" {
 		x.nd = append(x.nd, ndRecord{Kind: kind, Tag: tag, Term: t})
 	}
@@ -447,6 +575,12 @@ func (x *Explorer) fail(id, kind, detail string, cond *Term, site string) {
 		notKnown = mkAnd(notKnown, mkNot(k.cond))
 	}
 	q := mkAnd(neg, notKnown)
+	if r, ok := x.domDecide(q); ok && r < 0 {
+		q = tFalse
+		if len(x.known) == 0 {
+			return
+		}
+	}
 	if !q.isFalse() {
 		var m map[string]uint64
 		res := Unknown
